@@ -2,3 +2,71 @@
 
 // Concrete playback (./check <id> --replay): Kani's generated unit test is written to this file, which is empty otherwise.
 include!("/verif/build/gen/playback_rustemo_glr_gss.rs");
+
+// ---------------------------------------------------------------------------------------------------------------
+// C03 "enumerating the forest (by index or by iteration) yields each derivation tree exactly once": the weighted
+// (mixed-radix) index decoding of Tree::children and the solution counting of SPPFTree/Parent/Forest, on the REAL
+// functions (sum/product/enumerate adapter chains, outside Verus).  The SPPF below is a harness INPUT: a non-terminal
+// node with two children, the first with NA alternatives, the second with NB, every alternative a terminal leaf with
+// its own token kind.  The tree index is symbolic over the whole range [0, NA*NB] (one past the end included).
+use super::*;
+use crate::position::Position as KPos;
+
+type KTree<'i> = SPPFTree<'i, [u8], u8, u8>;
+
+fn k_span() -> SourceSpan {
+    SourceSpan { start: KPos { pos: 0, line_col: None }, end: KPos { pos: 0, line_col: None } }
+}
+fn k_leaf<'i>(input: &'i [u8], kind: u8) -> Rc<KTree<'i>> {
+    Rc::new(SPPFTree::Term { token: Token { kind, value: &input[0..0], span: k_span() }, data: TreeData { span: k_span(), layout: None } })
+}
+fn k_kind(t: &Tree<'_, [u8], u8, u8>) -> u8 {
+    match &*t.root {
+        SPPFTree::Term { token, .. } => token.kind,
+        _ => 255,
+    }
+}
+
+/// bounded(one ambiguous node, 2 x 3 alternatives); idx symbolic in [0, 6]
+#[kani::proof]
+#[kani::unwind(8)]
+fn sppf_children_mixed_radix() {
+    const NA: usize = 2;
+    const NB: usize = 3;
+    let input: [u8; 1] = [0];
+    let a = vec![k_leaf(&input, 10), k_leaf(&input, 11)];
+    let b = vec![k_leaf(&input, 20), k_leaf(&input, 21), k_leaf(&input, 22)];
+    let pa = Rc::new(Parent::new(NodeIndex::new(0), NodeIndex::new(1), a));
+    let pb = Rc::new(Parent::new(NodeIndex::new(1), NodeIndex::new(2), b));
+    assert!(pa.solutions() == NA && pb.solutions() == NB);
+    let mut kids = VecDeque::new();
+    kids.push_back(pa);
+    kids.push_back(pb);
+    let root: Rc<KTree> = Rc::new(SPPFTree::NonTerm { prod: 7u8, data: TreeData { span: k_span(), layout: None }, children: RefCell::new(kids) });
+    // "the number of solutions it reports equals the number of distinct derivation trees"
+    assert!(root.solutions() == NA * NB);
+    let forest = Forest::new(vec![Rc::clone(&root)]);
+    assert!(forest.solutions() == NA * NB);
+    let idx: usize = kani::any();
+    kani::assume(idx <= NA * NB);
+    let tree = forest.get_tree(idx);
+    if idx == NA * NB {
+        // "Indexes at or beyond the number of solutions yield no tree"
+        assert!(tree.is_none());
+    } else {
+        let tree = tree.unwrap();
+        let ch = tree.children();
+        assert!(ch.len() == 2);
+        // the decoding is the mixed-radix representation of idx: (idx / NB, idx % NB) -- a bijection between [0, NA*NB) and
+        // the pairs of alternatives, so every combination is enumerated exactly once
+        assert!(k_kind(&ch[0]) == 10 + (idx / NB) as u8, "C03: first child is not alternative idx / NB");
+        assert!(k_kind(&ch[1]) == 20 + (idx % NB) as u8, "C03: second child is not alternative idx % NB");
+        kani::cover!(idx == NA * NB - 1, "last tree");
+        kani::cover!(idx == 0, "first tree");
+        std::mem::forget(ch);
+        std::mem::forget(tree);
+    }
+    kani::cover!(idx == NA * NB, "one past the end");
+    std::mem::forget(forest);
+    std::mem::forget(root);
+}
